@@ -25,12 +25,21 @@ use std::{
     fmt,
     future::Future,
     rc::Rc,
-    sync::{
-        atomic::{AtomicBool, Ordering},
-        mpsc, Arc, Mutex,
-    },
     task::Waker,
 };
+#[cfg(not(calloop_verif_shuttle))]
+use std::sync::{
+    atomic::{AtomicBool, Ordering},
+    mpsc, Arc, Mutex,
+};
+// verification only: shuttle's models of the same primitives
+#[cfg(calloop_verif_shuttle)]
+use shuttle::sync::{
+    atomic::{AtomicBool, Ordering},
+    mpsc, Mutex,
+};
+#[cfg(calloop_verif_shuttle)]
+use std::sync::Arc;
 
 use crate::{
     sources::{
